@@ -1686,6 +1686,7 @@ func checkTrace(method string, tr *trace, st *eventStats) []issue {
 			}
 			if diff != "" {
 				is = append(is, issue{"C18", "mixing-noop-changed-state", fmt.Sprintf("bias #%d criteriaMixing (fewer than two criteria) reports nothing but hands on other data than it received: %s", e.Pos, diff)})
+				is = append(is, issue{"C07", "earlier-bias-effects-lost", fmt.Sprintf("bias #%d criteriaMixing (fewer than two criteria, nothing to do) hands on other data than it received - what earlier biases did is no longer in force: %s", e.Pos, diff)})
 			} else {
 				st.add("mixing_noop_events", 1)
 			}
